@@ -354,7 +354,7 @@ def guidesStr (g : Option (List Guide)) : String :=
 
 def bitsOf (l : List (String × NumV)) : List (String × Nat) := l.map fun e => (e.1, numBits e.2)
 
-def specFont (a b : Font) (pre post : String) : List String :=
+def specFont (a b : Font) (pre post : String) (exactCol : Bool := false) : List String :=
   (if a.info.rest = b.info.rest then [] else ["fontinfo-other"]) ++
   numsFail "info" (bitsOf a.info.nums) (bitsOf b.info.nums) ++
   (match a.info.upm, b.info.upm with
@@ -368,7 +368,8 @@ def specFont (a b : Font) (pre post : String) : List String :=
     numsFail "kerning" ((a.kerning.flatMap fun e => bitsOf e.2)) ((b.kerning.flatMap fun e => bitsOf e.2))) ++
   (if lfNorm a.features = lfNorm b.features then [] else ["features"]) ++
   (if a.layers.map (·.name) = b.layers.map (·.name) then [] else ["layers:order"]) ++
-  (if (a.layers.zip b.layers).all (fun e => colOk e.1.color e.2.color) then [] else ["layers:colour"]) ++
+  (if (a.layers.zip b.layers).all (fun e => if exactCol then e.1.color.map colBits = e.2.color.map colBits else colOk e.1.color e.2.color)
+    then [] else ["layers:colour"]) ++
   (if (a.layers.zip b.layers).all (fun e => dictStr e.1.lib = dictStr e.2.lib) then [] else ["layers:lib"]) ++
   (if (a.layers.zip b.layers).all (fun e => e.1.glyphs.map (fun g => (g.name, g.tok)) = e.2.glyphs.map (fun g => (g.name, g.tok)))
     then [] else ["layers:glyphs"]) ++
